@@ -48,8 +48,8 @@ def loaders_agree(prog, res):
             gs = [g for g in sites if "dictionary_corrupted" in g.codes and g.cond is not None and any(is_call(y, callee) for y in walk(f.resolve_x(g.cond)))
                   or ("dictionary_corrupted" in g.codes and "c:" + callee in (g.L | g.R))]
             res.check(len(gs) >= 3, R, "%s:%s-results-checked" % (side, callee), f.loc, "three header reads, each result checked", "a table header read is not checked (%d)" % len(gs))
-        huf = "HUF_readCTable" if side == "C" else "HUF_readDTableX2_wksp"
-        gs = [g for g in sites if "dictionary_corrupted" in g.codes and "c:" + huf in (g.L | g.R)]
+        huf = ("HUF_readCTable",) if side == "C" else ("HUF_readDTableX2_wksp", "HUF_readDTableX1_wksp")    # X1 when HUF_FORCE_DECOMPRESS_X1
+        gs = [g for g in sites if "dictionary_corrupted" in g.codes and {"c:" + h for h in huf} & (g.L | g.R)]
         res.check(len(gs) >= 1, R, "%s:huffman-header-checked" % side, f.loc, "Huffman description read and checked", "Huffman header result not checked")
         for lim, name in ((8, "offset"), (9, "match-length"), (9, "literal-length")):
             pass
